@@ -516,15 +516,17 @@ func defaultRedirectTrailingSlashHandler(c Context) {
 		code = http.StatusPermanentRedirect
 	}
 
-	var url string
-	if len(req.URL.RawPath) > 0 {
-		url = FixTrailingSlash(req.URL.RawPath)
-	} else {
-		url = FixTrailingSlash(req.URL.Path)
-	}
+	// The relative reference is built from the escaped form of the path, so that a decoded '?', '#', '%' or space
+	// in the last element cannot change how the client resolves it.
+	url := FixTrailingSlash(req.URL.EscapedPath())
 
 	if url[len(url)-1] == '/' {
-		localRedirect(c.Writer(), req, path.Base(url)+"/", code)
+		base := path.Base(url)
+		if strings.IndexByte(base, ':') >= 0 {
+			// RFC 3986 section 4.2: a first segment containing a colon would be read as a scheme.
+			base = "./" + base
+		}
+		localRedirect(c.Writer(), req, base+"/", code)
 		return
 	}
 	localRedirect(c.Writer(), req, "../"+path.Base(url), code)
